@@ -71,24 +71,27 @@ class CheckRollingWindowOverlap(Contract):
     def requires(self, a):
         conds = [a.size > 0]
         if a.shape is not None:
-            conds += [a.shape[0] >= 2, a.shape[1] >= 2]
+            conds += [a.shape[0] >= 1, a.shape[1] >= 1]
         return and_(*conds)
 
     def havoc(self, a):
         return None
 
-    def steps(self, a):
-        if a.shape is not None:
-            # Helper contract taken from the code: it pairs region[0:2] (west-east) with shape[0] and
-            # region[2:4] (south-north) with shape[1]. (For non-square shapes this is not the actual step
-            # between centres; the warning is not part of property C14 - recorded in DESIGN.md as an observation.)
-            w, e, s, n = a.region
-            return [(e - w) / (a.shape[0] - 1), (n - s) / (a.shape[1] - 1)]
-        sp = _spacing_pair(a.spacing)
-        return list(sp)
-
     def expect_warning(self, a):
-        return [("UserWarning", or_(*[st > a.size for st in self.steps(a)]))]
+        """Warns iff some step between neighbouring windows exceeds the window size. Helper contract taken from the
+        code: for a shape it pairs region[0:2] (west-east) with shape[0] and region[2:4] with shape[1] (for non-square
+        shapes this is not the actual step between centres; the warning is not part of property C14 - DESIGN.md). A
+        direction with a single window counts as an infinite step (the pinned test expects the warning for it)."""
+        from pyvc.core import ite
+
+        if a.shape is not None:
+            w, e, s, n = a.region
+            k0 = ite(a.shape[0] > 1, a.shape[0] - 1, 1)
+            k1 = ite(a.shape[1] > 1, a.shape[1] - 1, 1)
+            conds = [or_(a.shape[0] <= 1, (e - w) / k0 > a.size), or_(a.shape[1] <= 1, (n - s) / k1 > a.size)]
+        else:
+            conds = [x > a.size for x in _spacing_pair(a.spacing)]
+        return [("UserWarning", or_(*conds))]
 
     def ensures(self, a, r):
         return {"returns_none": r is None}
@@ -136,7 +139,7 @@ class RollingWindow(Contract):
             w, e, s, n = a.region
             conds += [w <= e, s <= n]
         if a.shape is not None:
-            conds += [a.shape[0] >= 2, a.shape[1] >= 2]
+            conds += [a.shape[0] >= 1, a.shape[1] >= 1]
         sp = _spacing_pair(a.spacing)
         conds += [x > 0 for x in sp if x is not None]
         return and_(*conds)
